@@ -21,7 +21,8 @@ RULE = ("model tie: (1) utils.copypath run on small real filesystems built in a 
         "Coq copypath_run: returned/raised and the state of every path of the universe afterwards; (2) Metadata._match_v1 vs the "
         "extracted match_v1 (outcome per piece and the exact copypath calls; see C13); (3) Metadata._match_v2 vs the extracted extract + "
         "match_v2 (count and the exact copypath calls; candidates of the recorded size and of other sizes incl. longer files that begin "
-        "with the genuine bytes; metafiles whose recorded root or length was changed; see C13).  End to end: payloads, metafiles (v1, aligned "
+        "with the genuine bytes; metafiles whose recorded root or length was changed; see C13); (4) Metadata(metafile) vs the extracted metadata_of_bytes on creator / reference / hostile "
+        "metafiles incl. every hostile element at every key position of a file tree (see C13).  End to end: payloads, metafiles (v1, aligned "
         "v1, v2, hybrid, reference encoder) and scattered search roots as in C13 plus partially matching decoys and longer decoys (genuine bytes then junk, enumerated first), destinations that "
         "already hold correct, wrong same-size, shorter, longer and unrelated files, empty directories and (rarely) a file where a "
         "directory is needed; full recursive snapshots (names, sizes, sha256, modes, mtimes) of every search root, the metafile "
@@ -32,6 +33,16 @@ RULE = ("model tie: (1) utils.copypath run on small real filesystems built in a 
         "byte-identical to a search-root file of the recorded name and length, and agrees with the payload on the whole overlap with at "
         "least one piece (v2: the whole file) -- so a same-size decoy none of whose pieces verify is never placed; new directories are "
         "ancestors of assigned paths; the second rebuild changes nothing at all; every mutating event targets the destination.  "
+        "Aimed streams judged by the same rules: v1 with a file of exactly k pieces followed by a file whose wholly different same-size "
+        "decoy is enumerated first or is its ONLY candidate; v1 with a piece spanning two files where the later file's name exists nowhere "
+        "in the search directories and the earlier file has such a decoy.  HOSTILE metafiles written by the reference encoder (v1 path "
+        "elements; v2 and hybrid DIRECTORY keys, below a plain directory or not, first or later sibling): '..' as separate elements, "
+        "'../..' inside one element, or an absolute element, leading from dest/<name> into a search directory (its top or a sub-"
+        "directory), onto the metafile itself or beside it; a candidate with the recorded name, length and digest is present and a "
+        "SHORTER file of that name (or nothing) lies where the escape lands; single metafiles and metafile directories with a benign "
+        "metafile; destinations 1-4 levels deep, relative or absolute; judged by C14's own rule: everything in the case directory "
+        "outside the destination (search directories, metafiles) is snapshotted before and after and must be identical -- refusing "
+        "the metafile is fine.  "
         "Non-trivial = distinct case in which the destination was pre-populated or changed.")
 TRUSTED_BASE = rc.TRUSTED_BASE + [
     "sys.addaudithook reports every file-system mutation Python code performs (checked on each run: every path the snapshots show as "
@@ -329,7 +340,8 @@ def make_escape_case(seed, workdir):
 
 
 def escape_summary(case):
-    return dict(case["escape"], case_seed=case["seed"], profile="escape", mode=case["mode"], dest_arg=case["dest_arg"], cwd=case["cwd"],
+    return dict(case["escape"], case_seed=case["seed"], profile="escape", mode=case["mode"], dest_arg=os.path.relpath(case["dest"], case["workdir"]),
+                cwd="<case directory>" if case["cwd"] else None,
                 metafiles=[os.path.relpath(m, case["workdir"]) for m in case["metafiles"]],
                 search=[os.path.relpath(x, case["workdir"]) for x in case["search"]])
 
@@ -380,6 +392,7 @@ def evaluate_escape(ctx, case, res):
 def e2e(ctx):
     quick = ctx.tier == "quick"
     plan = ["c14"] * (70 if quick else 1100) + ["boundary"] * (6 if quick else 80) + ["boundary-only"] * (6 if quick else 80) + \
+        ["absent"] * (8 if quick else 100) + \
         ["escape"] * (30 if quick else 500)
     n = len(plan)
     seeds = [ctx.rng.getrandbits(48) for _ in range(n)]
